@@ -27,7 +27,7 @@ TInit == /\ l = 2 /\ Init
 TReset == /\ IsEvent("Reset")
           /\ bal' = Ev.bal /\ nonce' = Ev.nonce /\ alive' = ToSet(Ev.alive) /\ burnt' = Ev.burnt
           /\ nops' = 0 /\ act' = [name |-> "Reset"]
-TApplied == /\ IsEvent("Applied")
+TApplied == /\ IsEvent("Applied") /\ Ev.nd = 0      \* only a transaction carrying the account nonce may be applied
             /\ Apply(Ev.s, Ev.to, Ev.gl, Ev.gp, Ev.v, Ev.used, Ev.ok, Ev.intr)
             /\ Observed
 TRejected == /\ IsEvent("Rejected")
